@@ -54,13 +54,24 @@ def growth_rules(chk, prog, eff, G, label):
             # capacity: term compared with E
             A = None
             room = None
+            rel = {"lt", "eq", "gt"}      # what the path knows about count vs capacity, however the tests are spelled / oriented
             for t, truth, _ in pa.facts:
-                if t[0] == "icmp" and t[1] in ("uge", "eq", "ult", "ugt", "ule") and t[2] == E and isinstance(t[3], tuple) and t[3][0] == "ld":
-                    A = t[3]
-                    if t[1] in ("uge", "eq"):
-                        room = not truth
-                    elif t[1] == "ult":
-                        room = truth
+                if not (t[0] == "icmp" and len(t) == 4 and t[1] in ("uge", "eq", "ne", "ult", "ugt", "ule")):
+                    continue
+                if t[2] == E and isinstance(t[3], tuple) and t[3][0] == "ld":
+                    pred, other = t[1], t[3]
+                elif t[3] == E and isinstance(t[2], tuple) and t[2][0] == "ld":
+                    pred, other = {"ult": "ugt", "ugt": "ult", "ule": "uge", "uge": "ule"}.get(t[1], t[1]), t[2]
+                else:
+                    continue
+                if A is not None and other != A:
+                    continue
+                A = other
+                sat = {"ult": {"lt"}, "ule": {"lt", "eq"}, "ugt": {"gt"}, "uge": {"gt", "eq"}, "eq": {"eq"}, "ne": {"lt", "gt"}}[pred]
+                rel &= sat if truth else ({"lt", "eq", "gt"} - sat)
+            if A is not None:
+                # count <= capacity is the inductive invariant these rules maintain, so "count != capacity" leaves "count < capacity"
+                room = (rel - {"gt"}) == {"lt"}
             reallocs = pa.calls("_cbor_realloc_multiple")
             if room:
                 chk.ob("C12.capacity", "%s %s path %d: slot written with room left (count < capacity)" % (label, name, k), True, where,
@@ -124,6 +135,52 @@ def growth_rules(chk, prog, eff, G, label):
     return nsites
 
 
+def check_insert_refusal(chk, rule, prog, eff, cache, floor=12):
+    """An insertion is refused (false) only for a stated reason: the decisive - last - test of every refusing path of the
+    insertion routines is (a) an allocation that returned NULL, (b) an overflow guard (_cbor_safe_to_multiply / _add) that
+    answered false, or (c) the count-against-capacity comparison of the container itself (a definite container that is
+    full).  A refusal decided by anything else (a home-made overflow test that is right for one growth factor only, a
+    depth counter, ...) makes the decoder report MEMERROR for a well-formed item although no allocation failed."""
+    import paths as _P
+    n = 0
+    for name in GROW_OPS:
+        f = prog.fn(name)
+        where = "%s:%d" % (f.file, f.line)
+        for k, pa in enumerate(cache.get(name, inline_static=True)):
+            if pa.ret != ("c", 0):
+                continue
+            n += 1
+            why = None
+            if pa.facts:
+                t, truth, _ins = pa.facts[-1]
+                x, neg = t, False
+                while isinstance(x, tuple) and x[0] in ("cast", "not"):
+                    if x[0] == "not":
+                        neg = not neg
+                        x = x[1]
+                    else:
+                        x = x[3]
+                val = truth != neg
+                if isinstance(x, tuple) and x[0] == "call" and x[1] in _P.OPAQUE and val is False:
+                    why = "overflow guard %s answered false" % x[1]
+                elif isinstance(x, tuple) and x[0] == "icmp" and len(x) == 4:
+                    l, r = x[2], x[3]
+                    alloc_res = [e.res for e in pa.events if e.kind == "call" and (e.ckind == "alloc" or e.callee in ("_cbor_alloc_multiple", "_cbor_realloc_multiple"))]
+                    if ((l in alloc_res and r == ("c", 0)) or (r in alloc_res and l == ("c", 0))) and ((x[1] == "eq") == val):
+                        why = "allocation returned NULL"
+                    elif isinstance(l, tuple) and isinstance(r, tuple) and l[0] == "ld" and r[0] == "ld" and l[1] == r[1] and l[2] != r[2] and not alloc_res:
+                        why = "count against capacity of the container"
+                    elif isinstance(l, tuple) and l[0] == "call" and l[1] in _P.OPAQUE and r == ("c", 0) and ((x[1] == "eq") == val):
+                        why = "overflow guard %s answered false" % l[1]
+            chk.ob(rule, "%s path %d: a refusal is decided by the allocator, an overflow guard or the capacity of a definite container" % (name, k),
+                   why is not None, where, fn=name, key="%s:refusal:%d" % (name, k),
+                   detail="" if why else "refuses on %s: no allocation failed, no guard answered false and the container is not a full definite one - a "
+                                         "well-formed item that needs this insertion is reported as MEMERROR"
+                                         % ([DR.fmt_term(t_) + ("" if tr_ else " is false") for t_, tr_, _ in pa.facts][-2:]),
+                   path=pa.block_lines() if not why else None)
+    chk.floor(rule, "refusing paths of the insertion routines", n, floor)
+
+
 def _truthy12(st, r):
     for t, truth in st.truth.items():
         x = t
@@ -155,6 +212,8 @@ def check_capacity_field(chk, rule, prog, eff, cache, floor=8):
     chunks_off = prog.field_offset("cbor_indefinite_string_data", "chunks")
     ccap_off = prog.field_offset("cbor_indefinite_string_data", "chunk_capacity")
     pairs = {data_off: meta_off + prog.field_offset("_cbor_array_metadata", "allocated"), chunks_off: ccap_off}
+    counts = {data_off: meta_off + prog.field_offset("_cbor_array_metadata", "end_ptr"),
+              chunks_off: prog.field_offset("cbor_indefinite_string_data", "chunk_count")}
     n = 0
     # unit-internal helpers are judged in the context of the functions they are inlined into
     in_context = set()
@@ -192,6 +251,33 @@ def check_capacity_field(chk, rule, prog, eff, cache, floor=8):
                     det = "capacity / length field not written although a new block of %s bytes is installed" % DR.fmt_term(ae.args[-1])
                 chk.ob(rule, "%s path %d: a newly installed block comes with its capacity" % (f.name, k), ok, e.ins.loc(), fn=f.name,
                        key="%s:capfield:%d" % (f.name, e.ins.id), detail="" if ok else det, path=pa.block_lines() if not ok else None)
+                # ... and a block installed into an EXISTING container still holds every element already counted: the new
+                # capacity is a multiple of the old one (count <= old capacity by induction), or the old capacity is known
+                # to be 0, or the path's comparisons place the element count at or below it
+                fresh = isinstance(b, tuple) and b[0] == "alloca" or isinstance(b, tuple) and b[0] == "call" and any(x.kind == "call" and x.res == b and x.ckind == "alloc" for x in pa.events)
+                if cnt is not None and ok and not fresh:
+                    cap_off, cnt_off = pairs[o], counts[o]
+                    olds = [x.res for x in pa.events if x.kind == "load" and ptr_key(x.args[0]) == (b, cap_off) and pa.events.index(x) < pa.events.index(caps[-1])]
+                    cur = [x.res for x in pa.events if x.kind == "load" and ptr_key(x.args[0]) == (b, cnt_off)]
+                    st_ = pa.st
+                    why = None
+                    if is_const(cnt) and any(st_.eqc.get(o_) == 0 or st_.known_null(o_) for o_ in olds):
+                        why = "old capacity is 0"
+                    elif isinstance(cnt, tuple) and cnt[0] == "op" and cnt[1] == "mul" and any(
+                            (cnt[3] == o_ and is_const(cnt[4]) and cnt[4][1] >= 1) or (cnt[4] == o_ and is_const(cnt[3]) and cnt[3][1] >= 1) for o_ in olds):
+                        why = "multiple of the old capacity"
+                    elif isinstance(cnt, tuple) and cnt[0] == "op" and cnt[1] == "shl" and cnt[3] in olds and is_const(cnt[4]):
+                        why = "multiple of the old capacity"
+                    elif any(st_.rel_ge(cnt, c_) for c_ in cur):
+                        why = "compared with the element count"
+                    elif any(st_.eqc.get(c_) == 0 for c_ in cur):
+                        why = "container known empty"
+                    chk.ob(rule, "%s path %d: the new capacity still covers the elements counted so far" % (f.name, k), why is not None,
+                           e.ins.loc(), fn=f.name, key="%s:capcover:%d" % (f.name, e.ins.id),
+                           detail="" if why else "capacity becomes %s; nothing on this path places the element count (%s) at or below it: a "
+                                                 "smaller block with the old count lets every reader run past the end"
+                                                 % (DR.fmt_term(cnt), ", ".join(DR.fmt_term(c_) for c_ in cur) or "not read"),
+                           path=pa.block_lines() if not why else None)
     chk.floor(rule, "installations of fresh blocks on paths", n, floor)
 
 
@@ -263,6 +349,16 @@ def run(ctx, chk):
                 ok = pa.ret == ("c", 0) and not stores and not acc and not delegated
                 chk.ob("C12.index", "%s path %d: out-of-range index is refused without touching memory" % (name, k), ok, where, fn=name,
                        key="%s:refuse:%d" % (name, k))
+            if inb == "append" and name == "cbor_array_set":
+                # set at index == size IS push: the answer is push's answer (growth, refusal of a full definite array), never a
+                # refusal decided here
+                pushes = [e for e in pa.events if e.kind == "call" and e.callee == "cbor_array_push" and e.args[0] == ("arg", 0)]
+                ok = bool(pushes) and (pa.ret == pushes[-1].res or (P.is_const(pa.ret) and pa.st.truth.get(pushes[-1].res) is not None
+                                                                   and int(bool(pa.st.truth.get(pushes[-1].res))) == pa.ret[1]))
+                nidx += 1
+                chk.ob("C12.index", "%s path %d: index == size appends (the result is cbor_array_push's)" % (name, k), ok, where, fn=name,
+                       key="%s:append:%d" % (name, k), detail="" if ok else "returns %s at index == size without asking cbor_array_push: an indefinite "
+                       "array that is exactly full is refused instead of grown" % DR.fmt_term(pa.ret), path=pa.block_lines() if not ok else None)
             if inb is None and not acc and not delegated and name != "cbor_array_set":
                 chk.ob("C12.index", "%s path %d has no bound test" % (name, k), False, where, fn=name, key="%s:nobound:%d" % (name, k))
     chk.floor("C12.index", "indexed accesses / refusals", nidx, 4)
@@ -354,4 +450,14 @@ def run(ctx, chk):
                                    "(reallocation wrappers inlined; shared with C06)")
     from props.c06 import check_dangling
     check_dangling(chk, "C12.no-stale-block", prog, eff, cache)
+    chk.rule("C12.refusal-justified", "an insertion is refused only because an allocation failed, an overflow guard answered false or a "
+                                      "definite container is full")
+    check_insert_refusal(chk, "C12.refusal-justified", prog, eff, cache)
+    # the growth step's guard means what C12.growth takes it to mean (shared with C20.guard-semantics)
+    import guard_rules as _g12
+    _g12.check_guard_semantics(chk, prog, eff, cache, "C12.growth-guard")
+    chk.rule("C12.declared-effects", "a function whose prototype promises `pure` / `const` to the client's compiler neither stores outside its frame "
+             "nor allocates, releases or calls back (cbor_array_get and the other accessors of the sequence behave as the list model says for every client, also one compiled with optimisation)")
+    import rules as _rde
+    _rde.check_declared_effects(chk, "C12.declared-effects", prog, eff)
     chk.exhaustive = True
